@@ -1364,7 +1364,7 @@ class ProgramGen:
                     fl.insert(r.below(len(fl) + 1), FKey(Int(100), Int(0)))
                 fl.append(FPos(Call(Var("select"), Int(2), Int(10), Int(20), Int(30), Int(31))))
                 return [Local([t], [Tab(*fl)]),
-                        self.emit_stat([Ix(Var(t), Int(q)) for q in range(1, 6)] + [Un("len", Var(t))])]
+                        self.emit_stat([Ix(Var(t), Int(q)) for q in range(1, 6)])]   # no #t: with [100]= present the border is not unique
             return [Local([t], [Tab(*fl)])]
         v = r.choice(vs)
         f = r.choice(v.info["fields"])
